@@ -18,7 +18,7 @@ func init() {
 		Explanation: "Static lockset discipline on the shared state that queries touch (the memo states found by the ownership analysis of C13). R1: the rule cache map is written only with its RWMutex held exclusively and read only with it held (shared or exclusive); " +
 			"the rule's compiled pattern and invalid flag are written only with the rule mutex held and read either under it or after the compile routine has returned (publish-once); the file list's Seek and every read of its file and buffer happen inside ONE hold of the list mutex. " +
 			"R2: every acquire is released on all exits (deferred unlock, or an unlock that every path to a return passes). R3: no lock is acquired while another library lock is held. R4: the pooled request is released by a deferred Put (or after its last use), " +
-			"is not stored into the heap and is not returned. R5: nothing reachable from a query writes the engines' index structures (shared with C13.R1). R4 also requires the pooled request to be released exactly once on every path. The rule cache and its mutex are located by type (the index->rule map of package filterlist and the mutex next to it), wherever the struct sits. R6: the read buffer a file list's mutex guards is allocated for that list alone. A helper that is a critical section by itself counts as one hold at its call site; release wrappers of the pool are releases. R7: the cache insert is dominated, in its own function, by a comma-ok lookup of the same map and key taken after the write lock, lies on the not-found side of that test, and the instance found is handed on (two goroutines that miss the cold cache together must not leave two instances of one rule: callers tell rules apart by pointer). R8 (shared with C11.R4): of the read buffer that the file list's mutex guards only the bytes of the current read are looked at, so what a retrieval hands back does not depend on the retrievals that ran before it.",
+			"is not stored into the heap and is not returned. R5: nothing reachable from a query writes the engines' index structures (shared with C13.R1). R4 also requires the pooled request to be released exactly once on every path. The rule cache and its mutex are located by type (the index->rule map of package filterlist and the mutex next to it), wherever the struct sits. R6: the read buffer a file list's mutex guards is allocated for that list alone. A helper that is a critical section by itself counts as one hold at its call site; release wrappers of the pool are releases. R7: the cache insert is dominated, in its own function, by a comma-ok lookup of the same map and key taken after the write lock, lies on the not-found side of that test, and the instance found is handed on (two goroutines that miss the cold cache together must not leave two instances of one rule: callers tell rules apart by pointer). R8 (shared with C11.R4): of the read buffer that the file list's mutex guards only the bytes of the current read are looked at, so what a retrieval hands back does not depend on the retrievals that ran before it. R9: the constructor handed to a pool (sync.Pool.New or syncutil.NewPool) reads no captured variable and no package variable that holds slices, maps or pointers: every pooled object is built from constants and fresh allocations, so two objects handed out at the same time share no memory.",
 		Trusted:     []string{"sync.Mutex/RWMutex, sync.Pool semantics; the Go memory model (a write under a mutex happens-before a later acquire)", "C13 (purity) for 'each concurrent answer equals the sequential answer'"},
 		Assumptions: []string{"schedules are not explored: race freedom is derived from the lockset discipline, not observed by a race detector", "RuleStorage.GetCacheSize (a diagnostic, not an engine query) reads the cache size without the lock; it is out of the property's scope"},
 	})
